@@ -8,8 +8,10 @@ EXTENDS Integers, Sequences, FiniteSets, TLC, Json
 
 Keywords == {"DIRECT", "PROXY", "HTTP", "HTTPS", "SOCKS", "SOCKS4", "SOCKS5", "FOO", "direct"}
 \* well-formed, IPv6, no port, no host, empty port, absent; signed port, port out of range, something after the
-\* port, a path - and "_h:1": a second blank between keyword and host:port
-HostPorts == {"h:1", "h6:1", "h", ":1", "h:", "none", "h:+1", "h:99999", "h:1 x", "h:1/", "_h:1"}
+\* port, a path - and "_h:1": a second blank between keyword and host:port; "T:h:1": a tab instead of the blank;
+\* "T_h:1": a tab and a blank (both browsers take blanks and tabs alike)
+HostPorts == {"h:1", "h6:1", "h", ":1", "h:", "none", "h:+1", "h:99999", "h:1 x", "h:1/", "_h:1", "T:h:1", "T_h:1"}
+Lenient == {"_h:1", "T:h:1", "T_h:1"}
 Malformed == {"h", ":1", "h:", "h:+1", "h:99999", "h:1 x", "h:1/"}
 Pads == {"", " "}
 Entry == [kw : Keywords, hp : HostPorts, lead : Pads, trail : Pads] \cup {[kw |-> "", hp |-> "none", lead |-> "", trail |-> ""]}
@@ -21,8 +23,9 @@ ParseEntry(e) ==
   IF e.kw \in {"", "DIRECT"} /\ e.hp = "none" THEN [ok |-> TRUE, mode |-> "direct", hp |-> "-"]
   ELSE IF e.hp = "none" THEN [ok |-> FALSE, mode |-> "-", hp |-> "-"]                  \* missing host:port
   ELSE IF e.hp \in Malformed THEN [ok |-> FALSE, mode |-> "-", hp |-> "-"]             \* no usable host and port
-  \* a second blank: mapped to the host:port that follows, or rejected - never a host that begins with a blank
-  ELSE IF e.hp = "_h:1" THEN [ok |-> TRUE, mode |-> Scheme(e.kw), hp |-> "h:1?"]
+  \* a second blank, a tab: mapped to the host:port that follows under the keyword's scheme, or rejected - never a
+  \* host that begins with a blank, never another scheme (a keyword that swallowed the tab would be "unknown": direct)
+  ELSE IF e.hp \in Lenient THEN [ok |-> TRUE, mode |-> Scheme(e.kw), hp |-> "h:1?"]
   ELSE [ok |-> TRUE, mode |-> Scheme(e.kw), hp |-> e.hp]                                \* unknown keyword -> direct
 \* which next hop the statement allows for the FIRST entry (C05)
 Hop(p) ==
